@@ -104,9 +104,10 @@ def falsy_zero_lint(model, rep, R, unit_filter, func_filter=None, witness=None):
 
 
 class Renamed:
-    """report proxy: rules written for another property report under C20 rule ids"""
-    def __init__(self, rep, mapping, default="C20.x-"):
-        self._rep, self._map, self._default = rep, mapping, default
+    """report proxy: rules written for one property report under another property's rule ids; `only` (predicate on the site text)
+    restricts the reuse to the sites that matter to the borrowing property -- reports about other sites are dropped, not renamed"""
+    def __init__(self, rep, mapping, default="C20.x-", only=None):
+        self._rep, self._map, self._default, self._only = rep, mapping, default, only
 
     def _r(self, rule):
         for k, v in self._map.items():
@@ -114,22 +115,73 @@ class Renamed:
                 return v
         return self._default + rule
 
+    def _skip(self, a):
+        return self._only is not None and a and isinstance(a[0], str) and not self._only(a[0])
+
     def hold(self, rule, *a, **k):
+        if self._skip(a):
+            return None
         return self._rep.hold(self._r(rule), *a, **k)
 
     def violation(self, rule, *a, **k):
+        if self._skip(a):
+            return None
         return self._rep.violation(self._r(rule), *a, **k)
 
     def undecided(self, rule, *a, **k):
+        if self._skip(a) and not a[0].startswith("<"):
+            return None
         return self._rep.undecided(self._r(rule), *a, **k)
 
     def check(self, cond, rule, *a, **k):
+        if self._skip(a):
+            return None
         return self._rep.check(cond, self._r(rule), *a, **k)
 
     def minimum(self, rule, n):
+        if self._only is not None:
+            return None     # the borrowing property states its own minimum for the restricted site set
         return self._rep.minimum(self._r(rule), n)
 
     def __getattr__(self, name):
         return getattr(self._rep, name)
 
 
+
+
+def handler_site_filter(model, table, units, extra_names=()):
+    """predicate on site texts: true for methods of the handler classes (and their bases) whose registry names occur as string constants in
+    the given units (the modules that build the shipped contexts), plus `extra_names`; used to restrict a borrowed rule to those handlers"""
+    names = set(extra_names)
+    for un in units:
+        u = model.units.get(un)
+        if u is None:
+            continue
+        for n in ast.walk(u.tree):
+            if isinstance(n, ast.Constant) and isinstance(n.value, str) and n.value in table.locations:
+                names.add(n.value)
+    v = model.fold(model.unit("passlib.utils"), ast.Name(id="unix_crypt_schemes", ctx=ast.Load()))
+    if isinstance(v, (list, tuple)):
+        names |= {x for x in v if x in table.locations}
+    prefixes = set()
+    seen = set()
+    work = list(names)
+    while work:
+        nm = work.pop()
+        if nm in seen:
+            continue
+        seen.add(nm)
+        h = table.get(nm)
+        if h is None:
+            continue
+        if h.kind == "wrapper":
+            prefixes.add(f"{h.unit}:{nm}")
+            if h.wrapped:
+                work.append(h.wrapped)
+            prefixes.add("passlib.utils.handlers:PrefixWrapper.")
+            continue
+        if h.cref:
+            for c in model.mro(tuple(h.cref)):
+                prefixes.add(f"{c[0]}:{c[1]}.")
+    pf = tuple(sorted(prefixes))
+    return (lambda s: s.startswith(pf)), sorted(seen)
